@@ -290,6 +290,10 @@ func (c *Conn) processEncryptedClientHello(h *clientHello, isRetry bool) (*clien
 		if !s.ReadUint8LengthPrefixed(&want) {
 			return nil, ErrDecodeError
 		}
+		// OuterExtensions<2..254>: the list names at least one extension.
+		if want.Empty() {
+			return nil, fmt.Errorf("%w: empty ech_outer_extensions", ErrDecodeError)
+		}
 		// Appendix B. Linear-time Outer Extension Processing
 		p := 0
 		for !want.Empty() {
